@@ -391,6 +391,19 @@ func (cs *clientStream) doHttpCall(transport http.RoundTripper, req *http.Reques
 	var rErr error
 	rMuHeld := false
 
+	// The rest of the response body is drained only after the stream has been
+	// marked done and rMu released (deferred calls run last-in first-out):
+	// draining can block until the server handler returns, which in turn may be
+	// waiting for the rest of the request body, and the client could never
+	// finish sending that while its SendMsg waits for rMu.
+	var replyBody io.ReadCloser
+	defer func() {
+		if replyBody != nil {
+			ioutil.ReadAll(replyBody)
+			replyBody.Close()
+		}
+	}()
+
 	defer func() {
 		if !rMuHeld {
 			cs.rMu.Lock()
@@ -425,10 +438,7 @@ func (cs *clientStream) doHttpCall(transport http.RoundTripper, req *http.Reques
 		onReady(statusFromContextError(err), nil)
 		return
 	}
-	defer func() {
-		ioutil.ReadAll(reply.Body)
-		reply.Body.Close()
-	}()
+	replyBody = reply.Body
 
 	if len(cs.copts.Peer) > 0 {
 		cs.copts.SetPeer(getPeer(cs.baseUrl, reply.TLS))
